@@ -1,21 +1,33 @@
 from txcommon import *
+from c01 import TxWalletCheck, WALLET_MODEL_CODES, WALLET_KINDS, REORG_TAGS
 
 
-class C02(TxCheck):
+class C02(TxWalletCheck):
     ID = "C02"
     MODE = "c02"
     LEVEL = "proof"
-    MODEL_CODES = [13, 14, 18, 21, 22, 23, 24, 902]
+    MODEL_CODES = [13, 14, 18, 21, 22, 23, 24, 902] + WALLET_MODEL_CODES
     N_QUICK = 60
     N_THOROUGH = 2000
     KINDS = ["balance_differs_from_ledger", "spendable_set_differs_from_ledger", "unconfirmed_set_differs_from_ledger",
              "tx_details_differ_from_ledger", "pair_balance_differs_from_ledger", "pair_spendable_set_differs_from_ledger",
-             "pair_details_differ_from_ledger", "same_facts_different_observables", "store_error"]
-    RULE = ("history A from the node simulator (reorgs, conflicts, coinbases, abandons) and history B = direct construction of "
-            "A's final facts (confirmations block by block, then the unconfirmed ones); both run on the real store; final balances, "
-            "spendable set and TxDetails of every universe tx compared (A vs B, each vs model, each vs ledger spec); Coq checks that B is "
-            "chain-consistent and establishes the same facts. The corpus replay of the repaired S12 defect runs first. "
-            "non-trivial = A contains a reorg or a conflict removal; distinct by input")
+             "pair_details_differ_from_ledger", "same_facts_different_observables", "store_error"] + WALLET_KINDS
+    RULE = ("history A from the node simulator (reorgs of depth 1-10, RECONNECTION of the same detached blocks incl. coinbases, conflicts, "
+            "abandons, amounts up to 2^54; one third with lease events) and a history B with the same final facts - confirmed per block, "
+            "unconfirmed, RAW LEASES and clock (same_facts of the theorem) - built as (1/7) the sorted direct construction, (3/7) 'shuffled': "
+            "the final chain reached another way (blocks in another parents-first order, unmined versions first, repeated deliveries, detours "
+            "through blocks of other forks that are disconnected again, the top blocks disconnected and connected once more) or (3/7) "
+            "'perturbed': A itself with facts-preserving insertions (the same kinds; its lease events stay in place); the Go twin of the "
+            "facts validates the pair, the Coq predicate re-validates it (codes 903/904). Both run on the real store; final balances "
+            "(minconf in {0,1,2,6,99,100,101,102,103,150,10^6} x sync tip+{0,100}), spendable set and TxDetails of every universe tx compared "
+            "(A vs B, each vs model, each vs ledger spec). One pair in four ALSO delivers A to a real wallet.Wallet (disconnectBlock -> Rollback, "
+            "addRelevantTx, filtered blocks): its wallet-level reports are checked as in C01 and the store API on the wallet's own store is "
+            "compared with B. The corpus replay of the repaired S12 defect runs first. "
+            "non-trivial = A contains a reorg, a reconnection or a conflict removal; distinct by input")
+    ASSUMPTIONS = ["int64 wrap-around is outside the model: the amounts of a universe sum below 2^63, heights < 2^20",
+                   "path independence is claimed for what the surviving facts determine: TxRecord.Received (the caller-supplied time of the "
+                   "delivery that recorded the transaction - an INPUT of the history, different for two histories even without any reorg) and the "
+                   "label (no event sets one) are outside; the block time is part of the block and is compared A vs B"]
 
     def gen_args(self, tier, seed):
         args = super().gen_args(tier, seed)
@@ -33,7 +45,16 @@ class C02(TxCheck):
 
     def nontrivial(self, c):
         t = set(c.get("tags", []))
-        return bool(t & {"reorg_depth_1", "reorg_depth_2", "reorg_depth_3", "conflict_confirmed", "mempool_replacement", "replay"})
+        return bool(t & (REORG_TAGS | {"conflict_confirmed", "unconfirmed_conflict_removed_by_confirmation", "mempool_replacement", "replay", "reconnect_same_block"}))
+
+    def extra_coverage(self, cases):
+        cov = TxWalletCheck.extra_coverage(self, cases)
+        kinds = {}
+        for c in cases:
+            k = c["in"].get("bkind") or "replay"
+            kinds[k] = kinds.get(k, 0) + 1
+        cov["second_history_construction"] = kinds
+        return cov
 
 
 CHECK = C02
